@@ -116,7 +116,7 @@ int ops_res(char **a, int na)
 	if (!strcmp(op, "res.table") && na >= 5) {
 		/* res.table <t> <n> <stride> <off> [codec [vlen]]: vlen > 0 pads every value with that many identical bytes
 		   (blocks that compress far better than any first guess of a decompressor) */
-		char p[360]; tpath(p, sizeof p, a[1]); unlink(p);
+		char p[360]; tpath(p, sizeof p, a[1]); unlink(p); rmdir(p);
 		long codec = na > 5 ? atol(a[5]) : 0, vlen = na > 6 ? atol(a[6]) : 0;
 		struct mtbl_writer_options *wo = mtbl_writer_options_init(); mtbl_writer_options_set_block_size(wo, vlen ? 8192 : 64);
 		mtbl_writer_options_set_compression(wo, (mtbl_compression_type)codec);
@@ -131,8 +131,14 @@ int ops_res(char **a, int na)
 		free(vb);
 		mtbl_writer_destroy(&w); puts("ok"); return 0;
 	}
+	if (!strcmp(op, "res.bad") && na == 3 && !strcmp(a[2], "dir")) {
+		/* a directory where a table is expected: it opens, its size passes the gate, mapping it fails */
+		char p[360]; tpath(p, sizeof p, a[1]); unlink(p); rmdir(p);
+		if (mkdir(p, 0700)) return -1;
+		puts("ok"); return 0;
+	}
 	if (!strcmp(op, "res.bad") && na == 2) {
-		char p[360]; tpath(p, sizeof p, a[1]); FILE *f = fopen(p, "w"); if (!f) return -1;
+		char p[360]; tpath(p, sizeof p, a[1]); rmdir(p); FILE *f = fopen(p, "w"); if (!f) return -1;
 		for (int i = 0; i < 700; i++) fputc("not a table "[i % 12], f);
 		fclose(f); puts("ok"); return 0;
 	}
